@@ -8,6 +8,7 @@ invalid = [n for n, v in r.items() if v["status"].startswith("invalid") or v["st
 EQUIV = {
  "no-wake-on-flush-if-queue-nonempty": "equivalent: a waker is only ever stored while the queue is empty and every push takes it, so a non-empty queue implies no stored waker",
  "wake-before-queue-push": "equivalent: waking while still holding the lock is harmless, the woken consumer blocks on the lock until the chunk is pushed",
+ "no-wake-on-drop-with-buffered-data": "equivalent (the mutant skips the wake only when more than one chunk is queued after the push; then a chunk was already queued before, and by the invariant above no waker is stored)",
  "dead-not-entered-after-failure": "equivalent: after a failed flush the chunker's buffer stays full, so every later write fails at the same place anyway",
 }
 out = []
